@@ -18,7 +18,7 @@ for b in ben:
     brow.append(f"| {b} | {re.sub(chr(10), ' ', str(m.get('summary','')))[:260].replace('|','/')} | {', '.join(m.get('files', []))[:120]} |")
 text = f"""## 11. Seeded changes and which checks catch them
 
-{len(rows)} property-breaking changes (twelve per property, written in six rounds) and {len(ben)} behaviour-preserving refactors were produced by
+{len(rows)} property-breaking changes (fourteen per property, written in seven rounds) and {len(ben)} behaviour-preserving refactors were produced by
 fresh sub-agents that saw only the text of one property (or, for the refactors, a list of files) and a scratch worktree of /repo -
 nothing from /verif. Each property-breaking change was confirmed by me in a scratch worktree (`tools/confirm_mut.sh`: the patch applies,
 the 179 tests pass with it, its demonstration fails with it and passes without it) and then run against the registered quick check of
@@ -27,9 +27,10 @@ worktree plus a private copy of /verif, so that several can run in parallel). Ro
 and asked for different kinds (helper modules, tables, Python idiom slips, feature interactions, boundary values, histories, data-flow slips,
 shape-gated tolerance features, exception handling, check ordering); round 5 was a red-team round: the sub-agents were told what the harness
 consists of and asked for changes it is LEAST likely to notice (each explains the blind spot it aims at in `meta.json`); round 6 was a second
-red-team round whose sub-agents were additionally given every earlier idea and the strengthening it had led to.
+red-team round whose sub-agents were additionally given every earlier idea and the strengthening it had led to; round 7 a third one, whose
+sub-agents were also told about the source-derived dictionary, the size ladder, the process environments and the state observers.
 
-**Result.** {len(rows) - 3} of the {len(rows)} changes are reported with a concrete failing input by the quick check of the property they break; three are
+**Result.** (Numbers for /repo 705cf1c.) {len(rows) - 3} of the {len(rows)} changes are reported with a concrete failing input by the quick check of the property they break; three are
 reported as a broken proof obligation / correspondence (`no-failing-input-found`, the replay names what no longer checks): C06_10 (a whole new
 attestation format added to the library: the "seven formats" theorem no longer checks against the regenerated enum, and no ceremony of a format
 that does not exist in the model is generated), C04_12 (an eighth certificate literal in the source: nobody without its private key can build
@@ -81,6 +82,27 @@ buffers, key members and signatures in other encodings (if accepted at all, they
 with a byte order mark or white space that IS part of what was hashed;
 (e) two **state observers**: the trust anchors actually added to each certificate store (`impl.STORE_LOG`: nothing but RP roots, named built-ins and the
 statement's own certificates), and a spy on process-global configuration calls made directly from library code (`fw.GlobalStateSpy`).
+
+Round 7 (third red-team round: 38 of 40 initially missed, and one genuine defect of the library found on the way - F10 in section 4) avoided new
+literals altogether: triggers were COMPUTED (from `sys.getrecursionlimit()`, `datetime.max`, digest sizes, enum arithmetic), were RELATIONS between two inputs
+(one field equal to another, a hash of another, a prefix of a digest; text whose base64url spelling is hex; a string that differs from its own NFC form), depended
+on the HOST (PyPy, Python 3.8-3.11 enum semantics, FIPS policy, DST calendar of the time zone), or lived BETWEEN two calls (a shared rule object raced by another
+thread, a lazily initialised anchor list, interned result objects, results aliasing the caller's buffers). Added, again mostly generic:
+(f) **`fw.interleaved`**: a deterministic two-thread schedule exploration - call A runs under `sys.settrace` and, between every two lines it executes inside the
+library, another thread runs a complete call B; all (A, B) pairs of the pool must give their single-threaded outcomes (C07, C18; first use of each format in a forked
+child). A line-level race is thereby found with certainty instead of by a stress run's luck (windows inside ONE line stay out of reach: C18_12's pop/insert);
+(g) **every result is re-read at the end of the check** (`impl.KEPT`, `fw.finish`), exported helpers' results are vandalised like the verify functions' results, and
+record fields are also passed as bytearrays that are refilled after the call;
+(h) **masquerade and degraded-host environments** (`harness/envprobe.py`): the child interpreter claims to be PyPy / win32 / darwin / emscripten / Python 3.9 / 32-bit,
+gets the 3.8-3.11 `value in Enum` semantics, a recursion limit of 220 - outcomes must be identical; or loses SHA-1 / MD5 (FIPS) and Ed25519 - outcomes may turn into
+errors, but nothing the default environment refuses may be accepted (one-directional comparison);
+(i) **relations and coincidences**: RP ID hashes of other strings of the ceremony, fields of one TPM structure equal to one another or shared with an earlier structure,
+digest-length messages, prefixes / suffixes of the right digest, ids and contents that look like another encoding (`fw.lookalike_bytes`), strings some normalisation
+would change (`fw.TRICKY_STRINGS`), strings made of JSON structural characters, numbers in every JSON spelling up to 6000 digits, `Infinity`, repeated list entries,
+RP-id collections, remarkable certificate dates (the epoch, 2038, 2050, 9999-12-31) - also at the REAL clock with no store hook, which masks OpenSSL's own flags;
+(j) **unsigned lures**: members a response of the other ceremony would have (`attestationObject` in an assertion), CTAP2's integer keys and other spellings inside the
+attestation object, each carrying a fault-free copy of what the signed data gets wrong;
+(k) built-in anchors are substituted by VALUE wherever they are bound (the by-name substitution crashed on a refactoring - C18_14).
 
 **Detection must not depend on the random stream.** Re-running all seeded changes under other seeds (`VERIF_SEED=1`, `7`) showed that a few catches
 had been luck: a catalogue entry that picks one of several variants at random (which origin alias, which id spelling, which vandalism) only exposes
